@@ -725,6 +725,62 @@ func (c *Ctx) checkMinMaxLess(r *Report, cmpFn *types.Func) {
 			r.Check(ok && ts == want && secondIsPhi, "C12.R1", ssaFuncName(fn), "extension "+name+" replaces the running value when Cmp(candidate, running) is in "+want, c.Pos(call.Pos()),
 				fmt.Sprintf("%s() selects on Cmp results %s with running value as second operand=%v; expected %s", name, ts, secondIsPhi, want))
 		}
+		// the selection loop shared with the other extreme: a helper of the package that is handed the threshold as a
+		// func(int) bool and applies it to Cmp(candidate, running)
+		if n == 0 {
+			eachInstr(fn, func(in ssa.Instruction) {
+				hc, ok := in.(*ssa.Call)
+				if !ok {
+					return
+				}
+				h := hc.Common().StaticCallee()
+				if h == nil || h.Pkg != fn.Pkg && fn.Parent() == nil || len(h.Blocks) == 0 || !isModuleSSA(h) {
+					return
+				}
+				for ai, a := range hc.Common().Args {
+					var k *ssa.Function
+					switch x := a.(type) {
+					case *ssa.MakeClosure:
+						k, _ = x.Fn.(*ssa.Function)
+					case *ssa.Function:
+						k = x
+					}
+					if k == nil || ai >= len(h.Params) || len(k.Params) != 1 {
+						continue
+					}
+					pk := h.Params[ai]
+					for _, ci := range callsIn(h, cmpFn) {
+						call := ci.(*ssa.Call)
+						// the comparator's result goes to the threshold function, whose answer decides the replacement
+						applied := false
+						for _, ref := range *call.Referrers() {
+							if tc, ok := ref.(*ssa.Call); ok && tc.Common().Value == ssa.Value(pk) && len(tc.Common().Args) == 1 && tc.Common().Args[0] == ssa.Value(call) {
+								applied = true
+							}
+						}
+						if !applied {
+							continue
+						}
+						n++
+						var set []string
+						okEval := true
+						for _, x := range []int64{-1, 0, 1} {
+							v, ok := c.ssaEval(k, []int64{x}, 0)
+							if !ok {
+								okEval = false
+							}
+							if v != 0 {
+								set = append(set, fmt.Sprint(x))
+							}
+						}
+						ts := "{" + strings.Join(set, ",") + "}"
+						_, secondIsPhi := call.Common().Args[1].(*ssa.Phi)
+						r.Check(okEval && ts == want && secondIsPhi, "C12.R1", ssaFuncName(fn), "extension "+name+" replaces the running value when Cmp(candidate, running) is in "+want, c.Pos(hc.Pos()),
+							fmt.Sprintf("%s() selects (through %s) on Cmp results %s with running value as second operand=%v; expected %s", name, h.Name(), ts, secondIsPhi, want))
+					}
+				}
+			})
+		}
 		if n == 0 {
 			r.Fail("C12.R1", ssaFuncName(fn), "extension "+name+" uses Cmp", c.Pos(fn.Pos()), name+"() does not delegate to object.Cmp")
 		}
